@@ -1,4 +1,5 @@
 import PB.Model.FsAtomic
+import PB.Model.FsWriters
 import PB.Drv.Loop
 /- Driver for C17: replays one recorded run of a writer through the file-system model.
    run … · mk <path>|<entry> · dest … · sys <call> · end · readers · check · temps -/
@@ -16,6 +17,7 @@ structure DS where
   prefixes : List String := []
   also : List Path := []
   calls : List Call := []      -- reversed
+  results : List Res := []     -- reversed, the OBSERVED results (for the program acceptor)
   haveDest : Bool := false
   volOk : Bool := true
 
@@ -182,7 +184,7 @@ def handle (d : DS) (line : String) : DS × String :=
     | none => (d, "bad-op")
     | some c =>
       let (fs', r) := exec d.fs c
-      ({ d with fs := fs', calls := c :: d.calls, volOk := d.volOk && allowed d.old d.new (vview fs' d.dest) },
+      ({ d with fs := fs', calls := c :: d.calls, results := r :: d.results, volOk := d.volOk && allowed d.old d.new (vview fs' d.dest) },
         r.str ++ " " ++ obsStr fs' d.dest)
   | ["end"] => if d.haveDest then (d, obsStr d.fs d.dest ++ " " ++ snapshot d.fs) else (d, "bad-op")
   | ["readers"] => if d.haveDest then (d, if d.volOk then "ok" else "bad") else (d, "bad-op")
@@ -191,6 +193,28 @@ def handle (d : DS) (line : String) : DS × String :=
     let t := d.calls.reverse
     let ok := if d.kind = "dir" then safePublishDir d.s0 d.dest d.old d.new t else safePublish d.s0 d.dest d.old d.new t
     (d, if ok then "safe" else "unsafe")
+  | "prog" :: w :: rest =>
+    if !d.haveDest then (d, "bad-op") else
+    let get (k : String) : String := ((rest.filterMap kv).lookup k).getD ""
+    let t := d.calls.reverse
+    let chunks := t.filterMap (fun c => match c with | .write _ g => some g | _ => none)
+    let optdir : Option Path := if get "optdir" = "-" || get "optdir" = "" then none else some (parsePath (get "optdir"))
+    let tmpdir := parsePath (get "tmpdir")
+    let prog? : Option Prog :=
+      match w, parseOct (get "mode") with
+      | "writefile", some m => some (writeFileP tmpdir d.dest m chunks)
+      | "createatomic", some m => some (createAtomicP optdir tmpdir d.dest m chunks (get "readfails" = "1"))
+      | "fileunpack", _ => optdir.map (fun od => fileUnpackP od tmpdir d.dest chunks (get "readfails" = "1"))
+      | "symlink", _ => some (symlinkP (get "target") d.dest)
+      | "nothing", _ => some (.ret true)
+      | _, _ => none
+    match prog? with
+    | none => (d, "bad-op")
+    | some p =>
+      match accepts p d.s0 (t.zip d.results.reverse) with
+      | none => (d, "reject")
+      | some none => (d, "ok ret=-")
+      | some (some f) => (d, if f then "ok ret=err" else "ok ret=ok")
   | ["temps"] =>
     if !d.haveDest then (d, "bad-op") else
     (d, if onlyTemp d.dest (tmpPred d) d.calls.reverse then "ok" else "reject")
